@@ -137,8 +137,8 @@ CHECKS = {
             "Sizes of every zero-copy account declared for the SDK; every model accessor of the program Market vs the SDK MarketModel over a family of market contents (all keys populated, closed x closed-params x every flag, all pools populated, pure market); swaps and fee-state updates on a real RevertibleMarket vs the SDK model under the same stubbed time; real deposit/withdrawal instructions vs the SDK simulation (amounts and resulting views); real increase/decrease order instructions on an A|A/B and a pure market, all four sides, four price moves, vs the SDK PositionModel (execution price, impact, pnl, output amounts, position after, removal, market view); every config key written with 0/1/MAX on a populated base for open/closed markets with and without closed-market parameters.",
             "clock fixed for the position section (the SDK model has no borrowing-state update); discount comparison is C31", "§10 C40"),
     "C44": ("mc-store", E1, "exhaustive enumeration (E1) of swap paths executed through real deposit instructions in the in-process runtime",
-            "Every sequence of 0..3 markets out of five over three tokens (duplicates, non-chaining paths and paths through the deposit market included) x initial token x amounts as the swap path of a real create_deposit + execute_deposit: creation accepts exactly the duplicate-free chaining paths ending in the market's long token; after completion recorded balances and vaults move together, markets outside the path are untouched and every hop moved exactly the amounts of the C40-validated SDK swap in order; stored paths tampered to hold a duplicate (adjacent, or revisiting [p,q,p] where every hop chains) never complete. Withdrawals from the first market with every pair of (long-side, short-side) paths of length 0..2: recorded balances of every market move exactly as the withdrawal and both declared paths imply. SwapActionParams accessors over every (primary, secondary) length pair against the declared slices.",
-            "paths of length 4-10 and swap orders (same SwapMarkets code) are not enumerated", "§10 C44"),
+            "Every sequence of 0..3 markets out of five over three tokens (duplicates, non-chaining paths and paths through the deposit market included) x initial token x amounts as the swap path of a real create_deposit + execute_deposit: creation accepts exactly the duplicate-free chaining paths ending in the market's long token; after completion recorded balances and vaults move together, markets outside the path are untouched and every hop moved exactly the amounts of the C40-validated SDK swap in order; stored paths tampered to hold a duplicate (adjacent, or revisiting [p,q,p] where every hop chains) never complete. Withdrawals from the first market with every pair of (long-side, short-side) paths of length 0..2: recorded balances of every market move exactly as the withdrawal and both declared paths imply. Paths of eight, nine and ten hops over seventeen markets execute hop by hop as the reference, eleven hops are refused. SwapActionParams accessors over every (primary, secondary) length pair against the declared slices.",
+            "paths of four to seven hops are not enumerated (three and fewer exhaustively, eight to eleven by depth-first selection); swap orders run in C22/C23", "§10 C44"),
     "C37": ("mc-store", E1, "exhaustive enumeration (E1) of factor setters and of claim orders executed through the real treasury instruction in the in-process runtime",
             "Config::set_gt_factor / set_buyback_factor over boundary factors from every reachable current value; the real complete_gt_exchange instruction (CPI into the store's close_gt_exchange, SPL transfers signed by the bank PDA) for all six claim orders of three claimants over a grid of one- and two-token bank balances and GT amounts: each claim = floor(balance*gt/remaining), never above holdings, at least the floor share of the original, recorded balance follows the vault, last claim drains, no double claim.",
             "bank / exchange / treasury config accounts fabricated through hooked state functions; deposits into the bank and confirmation through treasury instructions are not explored", "§5 C37"),
